@@ -138,6 +138,13 @@ pub enum TxSel {
     Unknown,
     Zero,
     Max,
+    /// an outstanding id plus or minus a fraction (never issued, so unknown)
+    FracAbove,
+    FracBelow,
+    /// an outstanding id plus 2^32, a negative number, NaN
+    Alias,
+    Negative,
+    NaN,
 }
 
 #[derive(Clone, Copy, Debug, PartialEq)]
@@ -174,8 +181,14 @@ pub enum Sym {
     StreamBegin,
 }
 
-fn sel_tx(m: &Model, s: TxSel) -> f64 {
+fn sel_tx(m: &Model, s: TxSel, rng: &mut Rng) -> f64 {
+    let any_outstanding = m.outstanding.keys().next().map(|x| *x as f64).unwrap_or(1.0);
     match s {
+        TxSel::FracAbove => any_outstanding + *rng.pick(&[0.25, 0.5, 0.75, 0.999, 1e-9]),
+        TxSel::FracBelow => any_outstanding - *rng.pick(&[0.25, 0.5, 0.4, 0.75, 0.001, 1e-9]),
+        TxSel::Alias => any_outstanding + 4294967296.0,
+        TxSel::Negative => -any_outstanding,
+        TxSel::NaN => f64::NAN,
         TxSel::Connect => m.outstanding.iter().find(|x| *x.1 == Purpose::Connect).map(|x| *x.0 as f64).unwrap_or(1.0),
         TxSel::Create => m.outstanding.iter().find(|x| *x.1 != Purpose::Connect).map(|x| *x.0 as f64).unwrap_or(2.0),
         TxSel::Stale => m.answered_txids.last().map(|x| *x as f64).unwrap_or(900.0),
@@ -194,11 +207,16 @@ fn sel_msid(m: &Model, s: MsidSel) -> u32 {
 }
 
 pub fn resolve(sym: Sym, m: &Model, rng: &mut Rng, step: usize) -> Op {
-    let media = |rng: &mut Rng| -> (u32, Vec<u8>) { (rng.u32_boundary(), rng.bytes_in(0, 40)) };
+    let media = |rng: &mut Rng| -> (u32, Vec<u8>) {
+        let mut d = rng.bytes_in(0, 40);
+        let t = if rng.coin() { 8 } else { 9 };
+        rng.flv_prefix(t, &mut d);
+        (rng.u32_boundary(), d)
+    };
     match sym {
-        Sym::RequestConnection => Op::RequestConnection { app: format!("app{}", step % 3) },
-        Sym::RequestPlayback => Op::RequestPlayback { key: format!("key{}", step % 2) },
-        Sym::RequestPublishing => Op::RequestPublishing { key: format!("key{}", step % 2), kind: rng.pick(&["live", "record", "append"]).to_string() },
+        Sym::RequestConnection => Op::RequestConnection { app: rng.spice(format!("app{}", step % 3)) },
+        Sym::RequestPlayback => Op::RequestPlayback { key: rng.spice(format!("key{}", step % 2)) },
+        Sym::RequestPublishing => Op::RequestPublishing { key: rng.spice(format!("key{}", step % 2)), kind: rng.pick(&["live", "record", "append"]).to_string() },
         Sym::StopPlayback => Op::StopPlayback,
         Sym::StopPublishing => Op::StopPublishing,
         Sym::PublishMetadata => Op::PublishMetadata,
@@ -211,8 +229,8 @@ pub fn resolve(sym: Sym, m: &Model, rng: &mut Rng, step: usize) -> Op {
             Op::PublishAudio { ts, data, drop: rng.coin() }
         }
         Sym::SendPing => Op::SendPing,
-        Sym::Result(t, form) => Op::Result { txid: sel_tx(m, t), stream_id: if form == 0 { Some(*rng.pick(&[1.0, 5.0, 5.0, 7.0, 0.0])) } else { None }, non_number: form == 2 },
-        Sym::Error(t) => Op::Error { txid: sel_tx(m, t) },
+        Sym::Result(t, form) => Op::Result { txid: sel_tx(m, t, rng), stream_id: if form == 0 { Some(*rng.pick(&[1.0, 5.0, 5.0, 7.0, 0.0])) } else { None }, non_number: form == 2 },
+        Sym::Error(t) => Op::Error { txid: sel_tx(m, t, rng) },
         Sym::StatusPlayStart => Op::OnStatus { code: Some("NetStream.Play.Start".into()), form: 0, msid: sel_msid(m, MsidSel::Active) },
         Sym::StatusPublishStart => Op::OnStatus { code: Some("NetStream.Publish.Start".into()), form: 0, msid: sel_msid(m, MsidSel::Active) },
         Sym::StatusUnknown => Op::OnStatus { code: Some(rng.pick(&["NetStream.Play.Reset", "NetStream.Play.Stop", "NetStream.Unpublish.Success", "x"]).to_string()), form: 0, msid: sel_msid(m, MsidSel::Active) },
@@ -288,7 +306,7 @@ pub fn random_sym(rng: &mut Rng, m: &Model) -> Sym {
             St::Publishing => return *rng.pick(&[Sym::PublishVideo, Sym::PublishAudio, Sym::PublishMetadata, Sym::StopPublishing]),
         }
     }
-    let tx = |rng: &mut Rng| *rng.pick(&[TxSel::Connect, TxSel::Create, TxSel::Create, TxSel::Stale, TxSel::Stale, TxSel::Unknown, TxSel::Zero, TxSel::Max]);
+    let tx = |rng: &mut Rng| *rng.pick(&[TxSel::Connect, TxSel::Create, TxSel::Create, TxSel::Stale, TxSel::Stale, TxSel::Unknown, TxSel::Zero, TxSel::Max, TxSel::FracAbove, TxSel::FracBelow, TxSel::Alias, TxSel::Negative, TxSel::NaN]);
     let ms = |rng: &mut Rng| *rng.pick(&[MsidSel::Active, MsidSel::Active, MsidSel::Other, MsidSel::Zero]);
     match rng.below(34) {
         0 | 1 => Sym::RequestConnection,
@@ -323,6 +341,10 @@ pub fn op_json(op: &Op) -> Value {
 fn run_history(next: &mut dyn FnMut(usize, &Model, &mut Rng) -> Option<Sym>, rng: &mut Rng, out: &mut Out) -> bool {
     out.eval(1);
     let mut cfg = ClientSessionConfig::new();
+    cfg.flash_version = rng.spice(cfg.flash_version.clone());
+    if rng.chance(1, 4) {
+        cfg.tc_url = Some(rng.spice("rtmp://host/app".to_string()));
+    }
     cfg.chunk_size = *rng.pick(&[4096u32, 128, 1]);
     let mut rig = match ClientRig::new(cfg, 5000) {
         Ok(r) => r,
@@ -461,11 +483,40 @@ impl Check for C10 {
             10..=19 => rng.usize(40, 80),
             _ => rng.usize(10, 40),
         };
-        let mut it = |i: usize, m: &Model, r: &mut Rng| if i < len { Some(random_sym(r, m)) } else { None };
+        // "many of the same" mode: one symbol repeated 129..1100 times (tables with a cap, counters
+        // with a limit), then the oldest createStream is answered and the walk goes on
+        let burst: Option<(usize, usize, Sym)> = if rng.chance(1, 60) {
+            let n = *rng.pick(&[129usize, 130, 200, 257, 300, 1025, 1100]);
+            let sym = *rng.pick(&[Sym::RequestPlayback, Sym::RequestPublishing, Sym::RequestPlayback, Sym::Ping, Sym::SendPing, Sym::Result(TxSel::Unknown, 0), Sym::Audio(MsidSel::Active)]);
+            Some((rng.usize(2, 8), n, sym))
+        } else {
+            None
+        };
+        let total = len + burst.map(|b| b.1).unwrap_or(0);
+        let mut it = |i: usize, m: &Model, r: &mut Rng| {
+            if i >= total {
+                return None;
+            }
+            if let Some((at, n, sym)) = burst {
+                if i < 2 {
+                    return Some(PREFIX_B[i]);
+                }
+                if i >= at && i < at + n {
+                    return Some(sym);
+                }
+                if i == at + n {
+                    return Some(Sym::Result(TxSel::Create, 0));
+                }
+            }
+            Some(random_sym(r, m))
+        };
+        if burst.is_some() {
+            out.count("walks_with_a_burst_of_one_symbol", 1);
+        }
         run_history(&mut it, rng, out);
     }
     fn rule(&self) -> String {
-        "histories over application calls {request_connection, request_playback, request_publishing, stop_playback, stop_publishing, publish_metadata/video/audio, send_ping_request} and server messages encoded by the independent encoder {_result / _error with the current connect, the current createStream, an already answered, a never issued, 0 and 2^32-1 transaction id, with / without / with a non-numeric stream id; onStatus Play.Start, Publish.Start, unknown codes, missing/ill-typed arguments; audio/video/onMetaData on the active stream, another stream, stream 0; ping request/response, acknowledgement, stream begin, set chunk size}. Random walks of 5-80 steps (one third of the steps biased towards progress, the rest uniform: duplicates, out-of-order and stale answers), plus all sequences of length 5 (thorough 6) over a 14-symbol reduced alphabet, and all sequences of the same length over a second 14-symbol alphabet (answers to createStream: current, stale, unknown, refused; both activities; media on the active and another stream) run after the fixed prefix request_connection, connect result. After every step events, decoded emitted commands/media/pings, emitted byte count and Ok/Err are compared with model::client. distinct = hash of the (model state class, symbol) sequence.".to_string()
+        "histories over application calls {request_connection, request_playback, request_publishing, stop_playback, stop_publishing, publish_metadata/video/audio, send_ping_request} and server messages encoded by the independent encoder {_result / _error with the current connect, the current createStream, an already answered, a never issued, 0, 2^32-1, an outstanding id plus or minus a fraction, plus 2^32, negated, and NaN as transaction id, with / without / with a non-numeric stream id; onStatus Play.Start, Publish.Start, unknown codes, missing/ill-typed arguments; audio/video/onMetaData on the active stream, another stream, stream 0; ping request/response, acknowledgement, stream begin, set chunk size}. Random walks of 5-80 steps (1 in 40 of 200-400; 1 in 60 with a burst of 129-1100 repetitions of one symbol after connect, then an answer to the oldest createStream; one third of the steps biased towards progress, the rest uniform: duplicates, out-of-order and stale answers), plus all sequences of length 5 (thorough 6) over a 14-symbol reduced alphabet, and all sequences of the same length over a second 14-symbol alphabet (answers to createStream: current, stale, unknown, refused; both activities; media on the active and another stream) run after the fixed prefix request_connection, connect result. After every step events, decoded emitted commands/media/pings, emitted byte count and Ok/Err are compared with model::client. distinct = hash of the (model state class, symbol) sequence.".to_string()
     }
     fn assumptions(&self) -> Vec<String> {
         vec![
@@ -476,7 +527,7 @@ impl Check for C10 {
         ]
     }
     fn required_counters(&self, _tier: Tier) -> Vec<String> {
-        let mut v = vec!["histories_agreeing".to_string(), "enumerated_sequences".into(), "enumerated_sequences_after_connect".into(), "histories_ended_by_expected_session_error".into()];
+        let mut v = vec!["histories_agreeing".to_string(), "enumerated_sequences".into(), "enumerated_sequences_after_connect".into(), "histories_ended_by_expected_session_error".into(), "walks_with_a_burst_of_one_symbol".into()];
         for s in ["Disconnected", "Connected", "PlayRequested", "Playing", "PublishRequested", "Publishing"] {
             v.push(format!("final_state_{}", s));
         }
